@@ -6,10 +6,10 @@ META = {
     "id": "C23",
     "level": "exploration",
     "technique": "TLA+ law plan (Laws.tla cells enumerated by TLC) + measurement of the real un-jitted exp_matrix_2D / exp_matrix + TLC trace validation (LawsTrace) of integer residual classes",
-    "text": "Law Spectral for exp_matrix_2D (2x2) and exp_matrix (2x2, 4x4) on random complex matrices M = V diag(lambda) V^-1 (cond V <= 8, |lambda| <= 1, 10, 50, eigenvalues separated by a quarter of the norm): P_i P_j = delta_ij P_i, sum P_i = 1, M = sum lambda_i P_i with the returned values equal to the eigenvalues put in, returned exponential = sum exp(lambda_i) P_i from the implementation's own eigen-system (spectral theorem), and agreement with an independent Pade exponential (scipy.linalg.expm).",
+    "text": "Law Spectral for exp_matrix_2D (2x2) and exp_matrix (2x2, 4x4) on random complex matrices M = V diag(lambda) V^-1 (cond V <= 8, |lambda| <= 1, 10, 50, eigenvalues separated by a quarter of the norm) and on structured matrices with the same spectral guarantees (all diagonal entries equal, upper triangular, real, one index decoupled - the shapes the QED/QCD kernels produce and a special-case shortcut could single out): P_i P_j = delta_ij P_i, sum P_i = 1, M = sum lambda_i P_i with the returned values equal to the eigenvalues put in, returned exponential = sum exp(lambda_i) P_i from the implementation's own eigen-system (spectral theorem), and agreement with an independent Pade exponential (scipy.linalg.expm).",
     "note": "Clean-tree residuals <= 3e-15 (algebraic clauses, required <= 1e-11) and <= 1.2e-13 (Pade comparison at norm 50, required <= 1e-9); a swapped projector, a wrong sign or factor gives >= 1e-2. Nearly degenerate or defective matrices are outside the quantifier (well-separated eigenvalues).",
     "design_ref": "1 (mode L), 4.11, 5 C23",
-    "rule": "cell = (clause, implementation, norm class); 40 (quick) / 400 (thorough) seeded matrices per cell, worst residual recorded",
+    "rule": "cell = (clause, implementation, norm class, matrix shape); 40 (quick) / 400 (thorough) seeded matrices per cell, worst residual recorded",
 }
 
 
